@@ -5,7 +5,7 @@ Byte-level model of buffer.py (`Schc.Buf`) against bit lists: `Buf.ofABuf a` is 
 abstract buffer `a = ⟨bits, side⟩` (minimal content, zero padding bits); by `C13_canonical` every Buffer the
 constructor returns is of this form, whatever content it was given.
 -/
-import Schc.Proofs.BufPad
+import Schc.Proofs.BufEq
 
 namespace Schc
 
@@ -14,18 +14,18 @@ theorem C13_canonical (c : List Nat) (n : Nat) (p : Pad) (hc : AllBytes c) : Buf
   new_spec c n p hc
 
 /-- two Buffers compare equal exactly when they have the same length and the same bits, for all four padding-side
-    combinations (and the comparison leaves its operand untouched) -/
-theorem C13_eq_iff (a b : ABuf) : Buf.eq (Buf.ofABuf a) (Buf.ofABuf b) = .ok (decide (a.bits = b.bits), Buf.ofABuf b) := by
-  rw [eq_spec]
-  congr 2
+    combinations (that the comparison leaves its operand untouched is C16's `C16_pure_eq`) -/
+theorem C13_eq_iff (a b : ABuf) : (Buf.eq (Buf.ofABuf a) (Buf.ofABuf b)).map (·.1) = .ok (decide (a.bits = b.bits)) := by
+  rw [eq_val]
+  congr 1
   simp only [ABuf.beq]
   by_cases h : a.bits = b.bits <;> simp [h]
 
 /-- equal Buffers have equal hashes: what is hashed is a function of the bits alone -/
 theorem C13_hash (a b : ABuf) (h : a.bits = b.bits) :
-    ∃ k, (Buf.ofABuf a).hashKey = .ok (k, Buf.ofABuf a) ∧ (Buf.ofABuf b).hashKey = .ok (k, Buf.ofABuf b) := by
-  refine ⟨(⟨a.bits, .left⟩ : ABuf).content, hashKey_spec a, ?_⟩
-  rw [hashKey_spec b, h]
+    ∃ k, (Buf.ofABuf a).hashKey.map (·.1) = .ok k ∧ (Buf.ofABuf b).hashKey.map (·.1) = .ok k := by
+  refine ⟨(⟨a.bits, .left⟩ : ABuf).content, hash_val a, ?_⟩
+  rw [hash_val b, h]
 
 /-- a Buffer stored as a dictionary key is found again through any equal Buffer, whatever the padding side of the
     stored key or of the probe (dict = insertion-ordered association list looked up by hash-then-eq; by `C13_hash`
